@@ -2,7 +2,8 @@
 # tools/tryseed.sh <seeded-name> <Cxx> [extra check args] : apply the stored patch to /repo, run the check, undo, restore evidence
 cd "$(dirname "$0")/.."
 name=$1; prop=$2; shift 2
+cp evidence/$prop.json /tmp/.tryseed_evidence_$prop.json 2>/dev/null
 git -C /repo apply "$PWD/seeded/$name/patch.diff" || exit 3
 ./check $prop "$@" 2>&1 | grep -v "^WARNING" | grep "VIOLATION\|rc=" | cut -c1-330 | tail -4
 git -C /repo checkout -- . ; git -C /repo status --porcelain
-git checkout -q evidence/$prop.json 2>/dev/null
+if [ -f /tmp/.tryseed_evidence_$prop.json ]; then mv /tmp/.tryseed_evidence_$prop.json evidence/$prop.json; else git checkout -q evidence/$prop.json 2>/dev/null; fi
